@@ -218,6 +218,52 @@ impl<'ast, 's> Visit<'ast> for Finder<'s> {
                 self.push(range_of(m), out, "R4");
                 return;
             }
+            // ---- R6i: `I.[filter(|x| C).]map(|p| F).rev().for_each(|q| G)` over a DoubleEndedIterator:
+            // Rev::next = next_back, Map::next_back = inner.next_back().map(f), Filter::next_back skips
+            // the items that fail the predicate, for_each = loop until None (std definitions)
+            syn::Expr::MethodCall(fe) if self.on("R6i") && fe.method == "for_each" && fe.args.len() == 1 => {
+                if let (syn::Expr::Closure(g), syn::Expr::MethodCall(rv)) = (&fe.args[0], &*fe.receiver) {
+                    if rv.method == "rev" && rv.args.is_empty() {
+                        if let syn::Expr::MethodCall(mp) = &*rv.receiver {
+                            if mp.method == "map" && mp.args.len() == 1 {
+                                if let syn::Expr::Closure(f) = &mp.args[0] {
+                                    let (inner, filt) = match &*mp.receiver {
+                                        syn::Expr::MethodCall(fl) if fl.method == "filter" && fl.args.len() == 1 => {
+                                            match &fl.args[0] {
+                                                syn::Expr::Closure(c) => (&*fl.receiver, Some(c)),
+                                                _ => (&*mp.receiver, None),
+                                            }
+                                        }
+                                        other => (other, None),
+                                    };
+                                    if let (Some(gp), Some(fp)) = (closure_simple(g), closure_simple(f)) {
+                                        if gp.len() == 1 && fp.len() == 1 && !body_escapes(&g.body) && !body_escapes(&f.body) {
+                                            let mut guard = String::new();
+                                            let mut ok = true;
+                                            if let Some(c) = filt {
+                                                match closure_simple(c) {
+                                                    Some(cp) if cp.len() == 1 && !body_escapes(&c.body) => {
+                                                        guard = format!("{{ let {} = &__it; if !({}) {{ continue; }} }} ", cp[0], self.txt(&*c.body));
+                                                    }
+                                                    _ => ok = false,
+                                                }
+                                            }
+                                            if ok {
+                                                let rep = format!(
+                                                    "loop {{ match {}.next_back() {{ Some(__it) => {{ {}let {} = {{ let {} = __it; {} }}; {}; }} None => break, }} }}",
+                                                    self.txt(inner), guard, gp[0], fp[0], self.txt(&*f.body), self.txt(&*g.body)
+                                                );
+                                                self.push(range_of(fe), rep, "R6i");
+                                                return;
+                                            }
+                                        }
+                                    }
+                                }
+                            }
+                        }
+                    }
+                }
+            }
             // ---- R10u: `unsafe { .. }` block -> `{ .. }` (the keyword has no run-time meaning)
             syn::Expr::Unsafe(u) if self.on("R10u") => {
                 let r = u.unsafe_token.span.byte_range();
